@@ -551,6 +551,57 @@ func genHistoryOn(r *lib.Rng, h *hist) {
 	h.finish()
 }
 
+// genBig: acceptable messages at the upper end of what a server may send - up to 64 cookies,
+// unrecognised non-critical records with bodies of up to 60000 bytes, server names of up to 255
+// bytes, more than 16 KB in all - must be accepted like any other (a reader with a cap on the
+// stream, on the number of cookies or on a record body refuses them).
+func genBig(r *lib.Rng, h *hist, variant int) {
+	rs := []rec{{1, true, u16(0)}, {4, true, u16(15)}}
+	name := func(n int) []byte {
+		b := make([]byte, n)
+		for i := range b {
+			b[i] = "abcdefghijklmnopqrstuvwxyz0123456789-."[r.Intn(38)]
+		}
+		return b
+	}
+	switch variant % 4 {
+	case 0: // many cookies
+		for i, n := 0, 17+r.Intn(48); i < n; i++ {
+			rs = append(rs, rec{5, false, r.Bytes(100 + 4*r.Intn(8))})
+		}
+	case 1: // large unrecognised non-critical records before, between and after the records that count
+		rs = append(rs, rec{unknownType(r), false, r.Bytes(lib.Pick(r, 4097, 16385, 60000, 4096+r.Intn(55000)))})
+		rs = append(rs, rec{5, false, []byte{}}, rec{5, false, r.Bytes(100)})
+		rs = append(rs, rec{unknownType(r), false, r.Bytes(lib.Pick(r, 4097, 20000, 1+r.Intn(9000)))})
+		rs = append(rs, rec{7, false, u16(4123)}, rec{5, false, r.Bytes(104)})
+	case 2: // a long server name and more than 16 KB of cookies of the largest usable size
+		rs = append(rs, rec{6, false, name(lib.Pick(r, 255, 254, 200+r.Intn(56)))})
+		for i := 0; i < 20; i++ {
+			rs = append(rs, rec{5, false, r.Bytes(lib.Pick(r, 896, 895, 880))})
+		}
+	default: // all of it, in any order
+		rs = append(rs, rec{6, false, name(255)}, rec{7, false, u16(r.Intn(65536))})
+		for i, n := 0, 30+r.Intn(35); i < n; i++ {
+			rs = append(rs, rec{5, false, r.Bytes(r.Intn(300))})
+		}
+		rs = append(rs, rec{unknownType(r), false, r.Bytes(20000 + r.Intn(40000))})
+		for i := len(rs) - 1; i > 0; i-- {
+			j := r.Intn(i + 1)
+			rs[i], rs[j] = rs[j], rs[i]
+		}
+	}
+	rs = append(rs, rec{0, true, nil})
+	sc := script{alpn: []string{"ntske/1"}, recs: rs}
+	finishScript(r, &sc, false)
+	h.tags["big"] = true
+	h.step(sc)
+	h.step(h.probe()) // answered from the pool
+	h.someStores(r)
+	h.step(h.probe())
+	h.tags["nt"] = true
+	h.write() // the pool is not drained: it would be written out again with every call
+}
+
 // sweeps: one valid message truncated at every byte; an error / unknown critical / unknown
 // non-critical record at every position; every ALPN list.
 func genSweeps(r *lib.Rng) {
@@ -622,6 +673,9 @@ func genAll(r *lib.Rng, n int, thorough bool) {
 	for i := 0; i < no; i++ {
 		runOwn(r)
 		runOwnQ(r)
+	}
+	for i := 0; i < no; i++ {
+		genBig(r, newHist(r), i)
 	}
 	for i := 0; i < n; i++ {
 		genHistory(r)
